@@ -48,6 +48,14 @@ class Outer:
 '''
 
 
+def encodable(x: str) -> bool:
+    try:
+        x.encode("utf-8")
+        return True
+    except UnicodeEncodeError:
+        return False
+
+
 def run(tier: str, seed: int) -> CompResult:
     import sim as S
     from xdist.remote import serialize_warning_message
@@ -96,7 +104,10 @@ def run(tier: str, seed: int) -> CompResult:
                 msg = text
             category = cls if rng.random() < 0.85 else rng.choice([UserWarning, None])
             source = object() if rng.random() < 0.2 else None
-            wm = warnings.WarningMessage(msg, category, f"t_{i}.py", 10 + i % 7, source=source)
+            # file names come from os.fsdecode: a name that is not valid UTF-8 carries lone surrogates; so may the source line
+            fname = f"t_{i}.py" if rng.random() < 0.9 else f"t_\udcff{i}.py"
+            srcline = None if rng.random() < 0.8 else rng.choice(["x = 1", "s = '\udcfe'"])
+            wm = warnings.WarningMessage(msg, category, fname, 10 + i % 7, line=srcline, source=source)
             data = serialize_warning_message(wm)
             try:
                 data = execnet.loads(execnet.dumps(data))
@@ -185,7 +196,9 @@ def run(tier: str, seed: int) -> CompResult:
                 if not carries:
                     res.violations.append(Violation("C14", "pure.warnings", f"warning text {orig_text!r} of {cls.__name__} arrived as {shown!r}",
                                                     "warning-text-lost", [line], {}))
-                if (w2.filename, w2.lineno) != (wm.filename, wm.lineno) or kw["nodeid"] != f"t_{i}.py::test":
+                # (a file name that cannot be encoded can only arrive escaped: its repr)
+                fname_ok = w2.filename == wm.filename or (not encodable(wm.filename) and w2.filename == repr(wm.filename))
+                if not fname_ok or w2.lineno != wm.lineno or kw["nodeid"] != f"t_{i}.py::test":
                     res.violations.append(Violation("C14", "pure.warnings", f"file/line/test id changed: {w2.filename}:{w2.lineno} {kw['nodeid']}",
                                                     "warning-location-changed", [line], {}))
                 if category is not None and imp_cat and (rebuild != "other") and imp_msg and w2.category is not category and w2.category.__name__ != category.__name__:
